@@ -664,9 +664,6 @@ This might be due to one or several causes:
 	}
 
 	close(c.readyCh)
-	c.shutdownLock.Lock()
-	c.readyB = true
-	c.shutdownLock.Unlock()
 	logger.Info("** IPFS Cluster is READY **")
 }
 
@@ -696,6 +693,15 @@ func (c *Cluster) Shutdown(ctx context.Context) error {
 	if c.shutdownB {
 		logger.Debug("Cluster is already shutdown")
 		return nil
+	}
+
+	// ready() runs in a goroutine that we wait for below while holding
+	// shutdownLock, so it cannot take the lock to tell us that it
+	// finished: readyCh is closed when it did.
+	select {
+	case <-c.readyCh:
+		c.readyB = true
+	default:
 	}
 
 	logger.Info("shutting down Cluster")
